@@ -16,6 +16,11 @@ ShapeAt(n, sf, s) == IF s = 0 THEN n ELSE CeilDiv(ShapeAt(n, sf, s - 1), sf)
 CoarseBoundOk(user, sf, s, got) == IF user % Pow(sf, s) = 0 THEN got * Pow(sf, s) = user
                                    ELSE got * Pow(sf, s) > user - Pow(sf, s) /\ got * Pow(sf, s) < user + Pow(sf, s)
 
+\* whole interval of level s as searched at a border pixel: exact when the user bound is divisible by sf^(ns-1) (then by every
+\* smaller power), otherwise within one coarse unit (sf) of user / sf^s
+LevelBoundOk(user, sf, ns, s, got) == IF user % Pow(sf, ns - 1) = 0 THEN got * Pow(sf, s) = user
+                                      ELSE got * Pow(sf, s) > user - sf * Pow(sf, s) /\ got * Pow(sf, s) < user + sf * Pow(sf, s)
+
 \* ---- disparity range for the next level --------------------------------------------------------------------------------
 \* e: rows, cols (coarse map), sf, marge, win, gmin, gmax (whole interval of the level), d [r][c] disparities (scaled integers,
 \*    scale e.k), bad [r][c] (invalid pixels), out: omin, omax [R][C] (scaled by e.k) on the finer grid
